@@ -748,7 +748,7 @@ func (p *Program) returnCases(fn *ssa.Function) []ReturnCase {
 		if !split {
 			rc := ReturnCase{Ret: ret, Facts: p.FactsAt(b)}
 			for _, r := range ret.Results {
-				rc.Results = append(rc.Results, p.resolveResult(r, ret))
+				rc.Results = append(rc.Results, refineByFacts(p.resolveResult(r, ret), rc.Facts))
 			}
 			out = append(out, rc)
 			continue
@@ -757,9 +757,9 @@ func (p *Program) returnCases(fn *ssa.Function) []ReturnCase {
 			rc := ReturnCase{Ret: ret, Facts: p.FactsOnEdge(pr, b), Pred: pr}
 			for _, r := range ret.Results {
 				if ph, ok := stripConv(r).(*ssa.Phi); ok && ph.Block() == b {
-					rc.Results = append(rc.Results, p.resolveResult(ph.Edges[pi], ret))
+					rc.Results = append(rc.Results, refineByFacts(p.resolveResult(ph.Edges[pi], ret), rc.Facts))
 				} else {
-					rc.Results = append(rc.Results, p.resolveResult(r, ret))
+					rc.Results = append(rc.Results, refineByFacts(p.resolveResult(r, ret), rc.Facts))
 				}
 			}
 			out = append(out, rc)
@@ -774,6 +774,51 @@ func (p *Program) resolveResult(v ssa.Value, at ssa.Instruction) ssa.Value {
 		if src, ok := p.loadSource(u); ok {
 			return src
 		}
+	}
+	return v
+}
+
+// refineByFacts narrows a returned phi by the nil tests known on the path: `if err != nil { return
+// ..., err }` where err merges nil and one non-nil value returns that non-nil value (the shape a
+// multi-return helper takes once its result travels through a variable).
+func refineByFacts(v ssa.Value, facts []Fact) ssa.Value {
+	for depth := 0; depth < 4; depth++ {
+		ph, ok := stripConv(v).(*ssa.Phi)
+		if !ok {
+			return v
+		}
+		var only ssa.Value
+		decided := false
+		for _, f := range facts {
+			x, trueMeansNonNil, ok := errNilTest(f.Cond)
+			if !ok || stripConv(x) != ssa.Value(ph) {
+				continue
+			}
+			nonNil := f.Pol == trueMeansNonNil
+			var keep []ssa.Value
+			for _, e := range ph.Edges {
+				isNil := isNilConst(stripConv(e))
+				if isNil != nonNil {
+					dup := false
+					for _, k := range keep {
+						if k == e || (isNil && isNilConst(stripConv(k))) {
+							dup = true
+						}
+					}
+					if !dup {
+						keep = append(keep, e)
+					}
+				}
+			}
+			if len(keep) == 1 {
+				only, decided = keep[0], true
+			}
+			break
+		}
+		if !decided {
+			return v
+		}
+		v = only
 	}
 	return v
 }
